@@ -14,6 +14,7 @@ from vmon.core import outcome
 from vmon.util import N, boundary_digests, boundary_secrets, rand_digest, rand_secret
 
 PROPERTY_ID = "C01"
+REPO_TEST_MODULES = ["test_ecc", "test_pecc"]  # thorough tier: run as an extra workload under the contracts
 RULE = (
     "cases = (secret, digest) pairs signed by PrivateKey.sign, (pubkey, digest, r, s) tuples given to "
     "S256Point.verify (valid ones and one tamper class each), and (r, s) pairs through der/parse; every case "
